@@ -83,6 +83,7 @@ func scenC04(w *vsim.World, spec *vsim.Spec) {
 	untrashStarted := map[string]int{}
 	deleteStarted := map[string]int{}         // DELETE requests ever started, per hash
 	prevStepAt := map[string]time.Time{}      // task -> time of its previous filesystem step
+	lastChtimesAt := map[string]time.Time{}   // task -> time of its latest utimes step
 	longWaitForFlock := map[string]bool{}     // task -> it got a flock a whole TTL after its previous step (the open)
 	stalledRenameAt := map[string]time.Time{} // hash -> when a writer that had been in flight for >= TTL renamed its temp file into place
 	lastCopyWrite := map[string]time.Time{}   // request task id -> time of the latest data-write step of a block write it performed
@@ -290,7 +291,27 @@ func scenC04(w *vsim.World, spec *vsim.Spec) {
 			longWaitForFlock[s.Task] = true
 			w.Probe("flock-obtained-after-a-whole-ttl")
 		}
-		if (s.Op == "rename" || s.Op == "chtimes") && strings.Contains(root, ">") && gapBefore >= ttl-smallJumps {
+		// (since the repository fix e382480 a writer opens and locks the file it replaces between stamping its
+		// temp file and renaming it: the wait may sit before those steps, so a rename also counts when the same
+		// task stamped the file a whole TTL ago)
+		sinceStamp := time.Duration(0)
+		if t, ok := lastChtimesAt[s.Task]; ok && s.Op == "rename" {
+			sinceStamp = time.Since(t)
+		}
+		if s.Op == "rename" && strings.Contains(filepath.Base(s.Path), "tmp") {
+			// what counts in the end is the age of the timestamp the renamed file carries
+			if fi, err := os.Stat(filepath.Join(vsimfs.Base, strings.TrimPrefix(s.Path, "@"))); err == nil {
+				// (only a timestamp that was read AFTER the data had been written: one read before the copy, as
+				// seeded/C04-wave3 does, is a different defect and must not be filed under this finding)
+				if age := time.Since(fi.ModTime()); age > sinceStamp && !fi.ModTime().Before(lastCopyWrite[root]) {
+					sinceStamp = age
+				}
+			}
+		}
+		if s.Op == "chtimes" {
+			lastChtimesAt[s.Task] = time.Now()
+		}
+		if (s.Op == "rename" || s.Op == "chtimes") && strings.Contains(root, ">") && (gapBefore >= ttl-smallJumps || sinceStamp >= ttl-smallJumps) {
 			for _, pth := range []string{s.Path, s.Path2} {
 				base := filepath.Base(pth)
 				if strings.HasPrefix(base, "tmp") {
